@@ -62,6 +62,8 @@ pub struct SentEv {
     pub stamp: Option<u32>,
     pub delivered: bool,
     pub dropped: bool,
+    /// Client update tick in the first client frame in which the delivered event was due.
+    pub due_u: Option<u32>,
 }
 
 pub struct Session {
@@ -1044,6 +1046,12 @@ impl Sim {
             .resource_mut::<RepliconServer>()
             .insert_received(ce, channel, Bytes::copy_from_slice(bytes));
         self.inject_pending = true;
+        let junk_ack_only = channel == Chans::ACKS && bytes.len() % 2 == 0 && !bytes.is_empty() && bytes.chunks(2).all(|p| u16::from_le_bytes([p[0], p[1]]) >= 0x4000);
+        if junk_ack_only {
+            self.stats.fault("junk_ack");
+            self.fault_fired = true;
+            return;
+        }
         self.clients[c].ever_injected = true;
         self.inject_len = self.inject_len.max(bytes.len());
         self.stats.fault("byzantine_bytes");
